@@ -8,6 +8,7 @@ Operations of a history (JSON-serialisable lists):
                                                canary of connection `conn`; W/C/X on the returned handles go
                                                through FoolscapBucketWriter.remote_write/close/abort
   ["K", conn]                                  connection `conn` is lost: its canary fires the registered watchers
+  ["Z"]                                        the server process is killed and restarted on the same directory
   ["W", wid, off, hexdata]                     BucketWriter.write through handle wid
   ["C", wid] close   ["X", wid] abort   ["Y", wid] disconnected
   ["T", dt] clock.advance(dt)
@@ -421,6 +422,28 @@ class Runner:
                     self.flag("aborted upload left its incoming file", "c22-abort-leaves-file")
                 self._ref_drop(wid)
             return "X:%d" % wid, "ok"
+        if kind == "Z":
+            # the server process is killed and a new StorageServer is started on the same directory (same clock).
+            # Nothing of the old process survives: its BucketWriter objects, their timers and the canary
+            # registrations are gone (the handles are kept only so that later ops on them read "closed").
+            from allmydata.storage.server import FoolscapStorageServer
+            for bw in self.handles:
+                if not bw.closed:
+                    if bw._timeout.active():
+                        bw._timeout.cancel()
+                    bw.closed = True
+            for c in self.canaries.values():
+                c.watchers = []
+            self.ss = make_server(self.dir, self.clock, self.reserved_space, self.readonly)
+            self.fss = FoolscapStorageServer(self.ss)
+            # statement (C29 clause 4 / C22): uploads still in progress are discarded, reservations gone
+            # (check_state right after verifies allocated_size() == 0 and the visible set)
+            for wid, r in list(ref.inprog.items()):
+                if os.path.exists(self.handles[wid].incominghome):
+                    self.flag("incoming file of share %s survives the restart" % (r["key"],), "c29-incoming-not-discarded")
+                self._ref_drop(wid)
+            self.ctx.count("restart")
+            return "Z", "ok"
         if kind == "K":
             conn = o[1]
             canary = self.canaries.setdefault(conn, Canary(conn))
@@ -509,7 +532,7 @@ class Runner:
 
 
 def gen_history(rng, n_ops, free_fn=None, sizes=(0, 1, 3, 5, 8, 10, 16, 24, 40), n_si=3, shnums=(0, 1, 2, 3, 8, 9, 17),
-                foolscap=0.0, http_frac=0.0):
+                foolscap=0.0, http_frac=0.0, restarts=False):
     """Structured history: allocate/write (overlapping, out-of-order, conflicting)/close/abort/
     disconnect/timeout/read/list.  Handles are tracked only approximately (the real result decides);
     stale handles are used on purpose."""
@@ -526,6 +549,10 @@ def gen_history(rng, n_ops, free_fn=None, sizes=(0, 1, 3, 5, 8, 10, 16, 24, 40),
     live_conns, next_conn = [], 1
     for _ in range(n_ops):
         r = rng.random()
+        if restarts and est and rng.random() < 0.025:
+            ops.append(["Z"])
+            live_conns = []
+            continue
         if via_foolscap and live_conns and rng.random() < 0.07:
             c = rng.choice(live_conns)
             live_conns.remove(c)
